@@ -101,3 +101,71 @@ func checkCoverage() int {
 	}
 	return found
 }
+
+// ---- call sites that split one unit into separately stamped pieces ----
+
+// same patterns as: grep -rn "ac3.SamplesPerFrame\|mpeg4audio.SamplesPerAccessUnit\|PacketDuration2\|SampleCount()" $VERIF_REPO/internal
+var splitRe = regexp.MustCompile(`ac3\.SamplesPerFrame|mpeg4audio\.SamplesPerAccessUnit|PacketDuration2|\.SampleCount\(\)`)
+
+// (file, piece-length token) pairs of the tree and the call-site ids of sites_impl.go that drive them.
+var splitCovered = map[string][]string{
+	"internal/protocols/mpegts/from_stream.go|ac3.SamplesPerFrame":              {"mpegts.FromStream/AC3"},
+	"internal/protocols/mpegts/to_stream.go|mpeg4audio.SamplesPerAccessUnit":    {"mpegts.ToStream/MPEG4AudioLATM"},
+	"internal/recorder/format_mpegts.go|ac3.SamplesPerFrame":                    {"recorder.formatMPEGTS/AC3"},
+	"internal/recorder/format_fmp4.go|ac3.SamplesPerFrame":                      {"recorder.formatFMP4/AC3"},
+	"internal/recorder/format_fmp4.go|mpeg4audio.SamplesPerAccessUnit":          {"recorder.formatFMP4/MPEG4Audio"},
+	"internal/recorder/format_fmp4.go|PacketDuration2":                          {"recorder.formatFMP4/Opus"},
+	"internal/recorder/format_fmp4.go|.SampleCount()":                           {"recorder.formatFMP4/MPEG1Audio"},
+	"internal/protocols/rtmp/from_stream.go|ac3.SamplesPerFrame":                {"rtmp.FromStream/AC3"},
+	"internal/protocols/rtmp/from_stream.go|mpeg4audio.SamplesPerAccessUnit":    {"rtmp.FromStream/MPEG4Audio"},
+	"internal/protocols/rtmp/from_stream.go|PacketDuration2":                    {"rtmp.FromStream/Opus"},
+	"internal/protocols/rtmp/from_stream.go|.SampleCount()":                     {"rtmp.FromStream/MPEG1Audio"},
+	"internal/protocols/moq/from_stream.go|mpeg4audio.SamplesPerAccessUnit":     {"moq.FromStream/MPEG4Audio"},
+	"internal/protocols/webrtc/from_stream.go|PacketDuration2":                  {"webrtc.setupAudioTrack/Opus"},
+	// not a split of one unit into stamped pieces:
+	"internal/stream/offline_sub_stream_track.go|mpeg4audio.SamplesPerAccessUnit": nil, // generator of whole units paced by the wall clock
+	"internal/stream/rtp_encoder.go|PacketDuration2":                              nil, // RTP packetization on the format's own clock: property C23
+}
+
+// checkSiteCoverage fails with HARNESS-ERROR when the tree derives piece timestamps from a piece length in a
+// file the call-site family does not drive.
+func checkSiteCoverage() {
+	repo := os.Getenv("VERIF_REPO")
+	if repo == "" {
+		vcommon.Harness("C24: VERIF_REPO is not set (run through tools/check)")
+	}
+	ids := map[string]bool{}
+	for i := range sites {
+		ids[sites[i].id] = true
+	}
+	for k, v := range splitCovered {
+		for _, id := range v {
+			if !ids[id] {
+				vcommon.Harness("C24: coverage table names call site %s (%s) that is not in the site table", id, k)
+			}
+		}
+	}
+	root := filepath.Join(repo, "internal")
+	err := filepath.WalkDir(root, func(p string, d fs.DirEntry, err error) error {
+		if err != nil {
+			return err
+		}
+		if d.IsDir() || !d.Type().IsRegular() || !strings.HasSuffix(p, ".go") || strings.HasSuffix(p, "_test.go") {
+			return nil
+		}
+		buf, err := os.ReadFile(p)
+		if err != nil {
+			return err
+		}
+		rel, _ := filepath.Rel(repo, p)
+		for _, m := range splitRe.FindAllString(string(buf), -1) {
+			if _, ok := splitCovered[rel+"|"+m]; !ok {
+				vcommon.Harness("C24: %s derives timestamps from %s but no call site of harness/c24/sites_impl.go drives it (add a site or an explicit exemption)", rel, m)
+			}
+		}
+		return nil
+	})
+	if err != nil {
+		vcommon.Harness("C24: scanning %s: %v", root, err)
+	}
+}
